@@ -57,6 +57,10 @@ RULE = (
     "(select_overshoot: constant {1/16,1/4,1,3} retry intervals | wait rounded up to a timer granule {1.5,2,4,8} retry intervals | a "
     "random 1/{2,3,5} of the wake-ups), completion at s + T x {1/2, 3/4, 1, 1+1/64, 2, never}; allowed: T + lateness of the LAST "
     "select() of the call only (every earlier lateness is measurable with the clock), and no select() may start after s + T; "
+    "iter-budget-{sync,aio}-{tcp,udp}: 1-2 iterators over 1-5 packets arriving whole (gaps {0,1,4,20}d, last one may never come), each "
+    "packet malformed with probability 1/2 (invalid UTF-8: next() raises Stream/DatagramProtocolParseError, the caller skips it and calls "
+    "next() again on the SAME iterator), 0-2 further next() calls after the iterator stopped on its timeout, pauses between the calls "
+    "(not charged); every next() is judged against what is left of the iterator's T, whatever the outcome of the previous ones (D34); "
     "non-trivial = a fault kind fired and >=1 operation completed with a value"
 )
 COMPONENTS_REAL = [
@@ -67,7 +71,7 @@ COMPONENTS_REAL = [
     "easynetwork.lowlevel._utils.ElapsedTime, lock_with_timeout (uncontended and contended by a second simulated thread)",
     "easynetwork.lowlevel.api_sync.transports.socket.SSLStreamTransport (handshake, recv, send_all) + OpenSSL via ssl",
     "CPython threading (Lock via vsim.threads.SimLock, Thread start/join)",
-    "easynetwork.clients.tcp / udp / async_tcp / async_udp, easynetwork.clients._iter",
+    "easynetwork.clients.tcp / udp / async_tcp / async_udp, easynetwork.clients._iter (budget kept across parse errors and after exhaustion)",
     "easynetwork asyncio backend (timeout scopes, stream and datagram endpoints), CPython asyncio loop",
 ]
 COMPONENTS_STUB = [
@@ -310,8 +314,9 @@ def _draw_common(world: World) -> tuple[float, float]:
 
 
 # ============================================================================================== sync: call runner
-def _sync_call(ctx: Ctx, op: str, budget: float | None, tc: float | None, fn: Callable[[], Any]) -> str:
-    """run one blocking library call and judge it; returns 'value' | 'timeout' | 'stop-timeout'"""
+def _sync_call(ctx: Ctx, op: str, budget: float | None, tc: float | None, fn: Callable[[], Any], ok_exc: tuple[type[BaseException], ...] = ()) -> str:
+    """run one blocking library call and judge it; returns 'value' | 'timeout' | 'error' (an exception of ok_exc: the call
+    completed by consuming something the caller can skip, e.g. a malformed packet; only the time clauses are judged)"""
     w = ctx.world
     w.log("call", ctx.site, op, budget)
     s, p0 = ctx.begin(op, budget)
@@ -332,6 +337,10 @@ def _sync_call(ctx: Ctx, op: str, budget: float | None, tc: float | None, fn: Ca
         ctx.end()
         ctx.judge(op, budget, s, w.now, ctx.pos_waits - p0, "timeout", ctx.seen(tc), lock_waits=lw(), slack=ctx.last_over)
         return "timeout"
+    except ok_exc:
+        ctx.end()
+        ctx.judge(op, budget, s, w.now, ctx.pos_waits - p0, "error", tc, lock_waits=lw(), slack=ctx.last_over)
+        return "error"
     except Exception as e:
         ctx.end()
         ctx.fail("unexpected-exception", op, f"{op} raised {type(e).__name__}: {e}")
@@ -650,6 +659,203 @@ def _h_sync_overshoot(world: World, target: str) -> None:
                 world.probe("overshoot>=8-in-a-run")
         finally:
             obj.close()
+
+
+# ============================================================================================== harness: one iterator, one budget
+def _iter_items(world: World, d: float, calm: bool) -> list[tuple[float | None, bool, str]]:
+    """(arrival time | None = never, well-formed?, text) of 1-5 packets; each arrives whole.  calm: all well-formed, all arrive"""
+    n = 1 + world.choose("nitem", 5)
+    rng = world.sub_rng("payload")
+    items: list[tuple[float | None, bool, str]] = []
+    t = world.pick("arr.first", (1, 0, 5)) * d
+    for i in range(n):
+        good = calm or not world.chance("item.bad", 1, 2)
+        text = "".join(rng.choice("abcdefgh") for _ in range(1 + rng.randrange(10)))
+        if not calm and i == n - 1 and world.chance("arr.starve", 1, 4):
+            items.append((None, good, text))
+            break
+        items.append((t, good, text))
+        gap = world.pick("arr.next", (1, 0, 4) if calm else (1, 0, 4, 20))
+        if gap >= 20:
+            world.fault("delay")
+        t += gap * d
+    return items
+
+
+def _h_iter_budget(world: World, kind: str) -> None:
+    """iter_received_packets(timeout=T): ONE budget for every next() of the iterator object, whatever their outcome.
+
+    1-5 packets arrive whole at drawn times; some are malformed (invalid UTF-8 for StringLineSerializer): next() raises
+    StreamProtocolParseError / DatagramProtocolParseError, the caller skips it and calls next() again on the SAME iterator.
+    After the iterator stopped (StopIteration caused by TimeoutError) the caller calls next() 0-2 more times (with pauses).
+    Oracle (Ctx.judge per next() with what is left of T): the sum of the waits of all next() calls of one iterator <= T;
+    once nothing is left a next() does not wait at all; time between the calls is not charged.  kind: sync-tcp
+    (TCPNetworkClient, copy/buffered), sync-udp, aio-tcp, aio-udp."""
+    from easynetwork.exceptions import DatagramProtocolParseError, StreamProtocolParseError
+
+    is_aio = kind.startswith("aio")
+    is_udp = kind.endswith("udp")
+    calm = world.choose("swarm", 3) == 0
+    d, retry = _draw_common(world)
+    path = "dgram" if is_udp else world.pick("path", ["copy", "buffered"])
+    ser = StringLineSerializer()
+    items = _iter_items(world, d, calm)
+    tcs = [t for t, _, _ in items]
+    ctx = Ctx(world, f"iter-budget-{kind}/{path}")
+    net = SimNet(world)
+    remote = ("10.0.0.9", 9000)
+    op = "iter.anext" if is_aio else "iter.next"
+    parse_errors = (StreamProtocolParseError, DatagramProtocolParseError)
+
+    def raw(good: bool, text: str) -> bytes:
+        return text.encode() if good else b"\xff\xfe" + text.encode()
+
+    def wire(lib: SimSocket, ps: SimSocket | None) -> None:
+        peer = Peer(world, ps) if ps is not None else None
+        for t, good, text in items:
+            if t is None:
+                world.fault("dgram_loss" if is_udp else "stall_peer")
+                continue
+            if not good:
+                world.fault("dgram_corrupt" if is_udp else "bitflip")
+            if peer is not None:
+                peer.write_at(t, raw(good, text) + b"\n")
+            else:
+                world.at(t, lambda good=good, text=text: net.inject_dgram(lib, raw(good, text), remote))
+
+    def tc_of(i: int) -> float | None:
+        return tcs[i] if i < len(tcs) else None
+
+    def make_lib() -> tuple[SimSocket, SimSocket | None]:
+        if is_udp:
+            lib = SimSocket(net, _socket.AF_INET, _socket.SOCK_DGRAM, 0, "lib")
+            net.bind(lib, ("10.0.0.1", 0))
+            lib.connect(remote)
+            return lib, None
+        return net.socketpair()
+
+    world.notes.update(target="iter-budget-" + kind, path=path, delta=d, retry_interval=None if is_aio else retry, items=[(t, good) for t, good, _ in items])
+    state = {"got": 0}
+    iters: list[dict] = []
+
+    def plan_iterator() -> tuple[float, int]:
+        """(T, extra next() calls after the stop) for an iterator created now"""
+        target = state["got"] + world.choose("iter.target", 3)
+        T = _choose_T(world, world.now, tc_of(target), d, none_ok=False)
+        assert T is not None
+        extra = world.choose("iter.extra", 3)
+        iters.append({"created": world.now, "T": T, "extra": extra, "calls": []})
+        world.notes.update(iterators=iters)
+        return T, extra
+
+    def op_of(stopped: int) -> str:
+        """own op name (= own violation key) for the two situations in which the iterator has to remember time spent in a
+        next() that returned no packet"""
+        calls = iters[-1]["calls"]
+        return op + ("-after-stop" if stopped else "-after-parse-error" if calls and calls[-1] == "error" else "")
+
+    def account(out: str, stopped: int) -> None:
+        iters[-1]["calls"].append(out)
+        if len(iters[-1]["calls"]) > len(items) + iters[-1]["extra"] + 2:  # every call but extra + 1 of them consumes a packet
+            from vsim.world import StepCap
+
+            world.fail(StepCap(f"{ctx.site}: {len(iters[-1]['calls'])} next() calls for {len(items)} packets: {iters[-1]['calls']}"))
+        if out == "error":
+            world.probe("iter-parse-error-skipped")
+        if out != "timeout":
+            state["got"] += 1
+            if stopped:
+                world.probe("iter-packet-after-stop")
+        elif stopped:
+            world.probe("iter-next-after-stop")
+
+    if not is_aio:
+        lib, ps = make_lib()
+        wire(lib, ps)
+        _swarm(world, ctx, d, lib, ("recvfrom",) if is_udp else ("recv",), calm)
+        world.notes.update(early_den=ctx.early_den)
+        with sync_engine(world, selector_cls=C11Selector):
+            if is_udp:
+                obj: Any = UDPNetworkClient(lib, DatagramProtocol(ser), retry_interval=retry)
+            else:
+                proto: Any = StreamProtocol(ser) if path == "copy" else BufferedStreamProtocol(ser)
+                obj = TCPNetworkClient(lib, proto, max_recv_size=world.pick("mrs", (1024, 1, 3, 8)), retry_interval=retry)
+            try:
+                for _ in range(1 + world.choose("iters", 2)):
+                    vsleep(world, world.pick("pause", (0, 1, 5)) * d)
+                    T, extra = plan_iterator()
+                    it = obj.iter_received_packets(timeout=T)
+                    remaining = T
+                    stopped = 0
+                    first = True
+                    while True:
+                        if not first:
+                            vsleep(world, world.pick("iter.pause", (0, 1, 5)) * d)  # time outside the iterator is not charged
+                        first = False
+                        s = world.now
+                        out = _sync_call(ctx, op_of(stopped), remaining, tc_of(state["got"]), lambda: next(it), ok_exc=parse_errors)
+                        remaining = max(0.0, remaining - (world.now - s))
+                        account(out, stopped)
+                        if out == "timeout":
+                            if stopped >= extra:
+                                break
+                            stopped += 1
+            finally:
+                obj.close()
+        return
+
+    world.FREE_ZERO_WAITS = 1 << 30  # type: ignore[misc]  # no creep: exact clock (as in aio-iter-*)
+    backend = SimAsyncIOBackend(net)
+
+    async def main() -> None:
+        lib, ps = make_lib()
+        wire(lib, ps)
+        if is_udp:
+            obj: Any = AsyncUDPNetworkClient(lib, DatagramProtocol(ser), backend=backend)
+        else:
+            proto: Any = StreamProtocol(ser) if path == "copy" else BufferedStreamProtocol(ser)
+            obj = AsyncTCPNetworkClient(lib, proto, backend=backend, max_recv_size=world.pick("mrs", (1024, 3, 8)))
+        await obj.wait_connected()
+        try:
+            for _ in range(1 + world.choose("iters", 2)):
+                await asyncio.sleep(world.pick("pause", (0, 1, 5)) * d)
+                T, extra = plan_iterator()
+                it = obj.iter_received_packets(timeout=T)
+                remaining = T
+                stopped = 0
+                first = True
+                while True:
+                    if not first:
+                        await asyncio.sleep(world.pick("iter.pause", (0, 1, 5)) * d)
+                    first = False
+                    opn = op_of(stopped)
+                    world.log("call", ctx.site, opn, remaining)
+                    s, _p = ctx.begin(opn, None)
+                    tc = tc_of(state["got"])
+                    try:
+                        await it.__anext__()
+                    except StopAsyncIteration as e:
+                        if not isinstance(e.__cause__, TimeoutError):
+                            ctx.fail("unexpected-exception", opn, f"iterator stopped because of {e.__cause__!r}")
+                        out = "timeout"
+                    except parse_errors:
+                        out = "error"
+                    except Exception as e:
+                        ctx.fail("unexpected-exception", opn, f"raised {type(e).__name__}: {e}")
+                    else:
+                        out = "value"
+                    ctx.judge(opn, remaining, s, world.now, 0, out, tc, sync=False)
+                    remaining = max(0.0, remaining - (world.now - s))
+                    account(out, stopped)
+                    if out == "timeout":
+                        if stopped >= extra:
+                            break
+                        stopped += 1
+        finally:
+            await obj.aclose()
+
+    with sim_sockets(net), patched_clock(world):
+        run_async(world, main)
 
 
 # ============================================================================================== harness: async iterators
@@ -1166,4 +1372,8 @@ HARNESSES = [
     Harness("sync-overshoot-client", lambda w: _h_sync_overshoot(w, "client"), weight=1),
     Harness("sync-overshoot-udp", lambda w: _h_sync_overshoot(w, "udp"), weight=1),
     Harness("sync-overshoot-send", lambda w: _h_sync_overshoot(w, "send"), weight=1),
+    Harness("iter-budget-sync-tcp", lambda w: _h_iter_budget(w, "sync-tcp"), weight=1),
+    Harness("iter-budget-sync-udp", lambda w: _h_iter_budget(w, "sync-udp"), weight=1),
+    Harness("iter-budget-aio-tcp", lambda w: _h_iter_budget(w, "aio-tcp"), weight=1),
+    Harness("iter-budget-aio-udp", lambda w: _h_iter_budget(w, "aio-udp"), weight=1),
 ]
